@@ -224,6 +224,14 @@ class FloatLiteral(Literal[float]):
 
     __slots__ = ()
 
+    def __str__(self) -> str:
+        # `repr(1e100)` is "1e+100", which would be read back as an integer
+        # literal. Keep a fractional part so a float stays a float.
+        mantissa, sep, exponent = repr(self.value).lower().partition("e")
+        if sep and "." not in mantissa:
+            mantissa += ".0"
+        return f"{mantissa}{sep}{exponent}"
+
 
 class RegexLiteral(Literal[Pattern[str]]):
     """A regex literal."""
